@@ -321,7 +321,7 @@ func ReplayHistory(tw *TraceWriter, id int, h []Action) {
 				buildPanic = r.msg
 			}
 			body = append(body, a.Tree)
-			if h[0].SrcInfo != nil {
+			if h[0].SrcInfo != nil || h[0].Light {
 				tw.Emit(Rec{"ev": "Add", "tree": Rec{"k": "nil"}}) // the observed body travels with the Render event
 			} else {
 				tw.Emit(Rec{"ev": "Add", "tree": a.Tree})
@@ -437,7 +437,12 @@ func ReplayHistory(tw *TraceWriter, id int, h []Action) {
 			rA := frag(sA, fA)
 			frag(sB, fB)
 			_, refs, bare := ProjectImports(rA.out, syms)
-			tw.Emit(Rec{"ev": "Frag", "tree": a.Tree, "status": rA.status, "refs": refs, "bare": bare, "text": string(rA.out),
+			var ftree interface{} = a.Tree
+			skip := false
+			if h[0].Light {
+				ftree, skip = Rec{"k": "nil"}, true // (large histories: no model comparison; trees nested beyond the JSON reader's limit)
+			}
+			tw.Emit(Rec{"ev": "Frag", "tree": ftree, "skip": skip, "status": rA.status, "refs": refs, "bare": bare, "text": string(rA.out),
 				"table": tableOf(fA), "parses": rA.status == "nil" && ParsesAsFragment(rA.out)})
 		default:
 			fatal("unknown action " + a.A)
